@@ -31,6 +31,13 @@ def firstFailing {α} (table : List (Bool × HErr)) (out : α) : R α :=
 
 /-! ## HandleSendJoin -/
 
+theorem dom_beq (a b : Bytes) : (SenderAns.dom a == SenderAns.dom b) = (a == b) := by
+  by_cases h : a = b
+  · subst h; simp
+  · have hne : SenderAns.dom a ≠ SenderAns.dom b := by
+      intro hc; cases hc; exact h rfl
+    rw [beq_eq_false_iff_ne.mpr hne, beq_eq_false_iff_ne.mpr h]
+
 theorem sendJoinTail_ok {i : SendJoinIn} {o : SendJoinOut} (h : sendJoinTail i = .ok o) :
     i.curMembership ≠ none ∧ i.curMembership ≠ some b!"ban" ∧ i.contentDecodes = true ∧ viaLocal i = true
     ∧ o.sig = ⟨i.localServer, i.keyID⟩ ∧ o.alreadyJoined = (i.curMembership == some b!"join") := by
@@ -85,6 +92,7 @@ theorem sendJoin_ok_implies_guards (i : SendJoinIn) (o : SendJoinOut) (h : handl
   · cases h
   split at h
   · cases h
+  · cases h
   · split at h
     · cases h
     split at h
@@ -113,6 +121,7 @@ theorem sendJoin_signs_unmodified (i : SendJoinIn) (o : SendJoinOut) (h : handle
   · cases h
   split at h
   · cases h
+  · cases h
   · split at h
     · cases h
     split at h
@@ -129,8 +138,8 @@ def sendJoinTable (i : SendJoinIn) : List (Bool × HErr) := [
   (!i.parses, eBadJSON),
   (i.stateKey.isNone || i.stateKey == some [], eBadJSON),
   (i.stateKey != some i.sender, eBadJSON),
-  (i.senderDomain.isNone, eForbidden),
-  (i.senderDomain != some i.requestOrigin, eForbidden),
+  (!senderKnown i.senderDomain, eForbidden),                 -- the querier failed, or knows no user for the sender (round-5 repair)
+  (i.senderDomain != .dom i.requestOrigin, eForbidden),
   (i.eventRoomID != i.roomID, eBadJSON),
   (i.eventID != i.reqEventID, eBadJSON),
   (i.evType != b!"m.room.member", eBadJSON),                 -- not an m.room.member event (round-4 repair)
@@ -197,24 +206,25 @@ theorem sendJoin_decision_table (i : SendJoinIn) :
   cases h4 : (i.stateKey != some i.sender)
   case true => simp [firstFailing]
   cases hd : i.senderDomain with
-  | none => simp [firstFailing]
-  | some d =>
-    have hs : (some d != some i.requestOrigin) = (d != i.requestOrigin) := by simp [bne]
+  | err => simp [firstFailing, senderKnown]
+  | nil => simp [firstFailing, senderKnown]
+  | dom d =>
+    have hs : (SenderAns.dom d != SenderAns.dom i.requestOrigin) = (d != i.requestOrigin) := by simp [bne, dom_beq]
     cases h5 : (d != i.requestOrigin)
-    case true => simp [firstFailing, hs, h5]
+    case true => simp [firstFailing, senderKnown, hs, h5]
     cases h6 : (i.eventRoomID != i.roomID)
-    case true => simp [firstFailing, hs, h5]
+    case true => simp [firstFailing, senderKnown, hs, h5]
     cases h7 : (i.eventID != i.reqEventID)
-    case true => simp [firstFailing, hs, h5]
+    case true => simp [firstFailing, senderKnown, hs, h5]
     rw [ht]
-    simp [firstFailing, hs, h5]
+    simp [firstFailing, senderKnown, hs, h5]
 
 /-- non-vacuity: an input on which HandleSendJoin accepts -/
 def sendJoinWitness : SendJoinIn := {
   versionKnown := true, parses := true, evType := b!"m.room.member", stateKey := some b!"@bob:hs2", sender := b!"@bob:hs2",
   eventRoomID := b!"!room:hs1", eventID := b!"$e", membership := some b!"join", contentDecodes := true,
   authorisedVia := b!"@alice:hs1", roomID := b!"!room:hs1", reqEventID := b!"$e", requestOrigin := b!"hs2",
-  localServer := b!"hs1", keyID := b!"ed25519:k1", senderDomain := some b!"hs2", verify := .good,
+  localServer := b!"hs1", keyID := b!"ed25519:k1", senderDomain := .dom b!"hs2", verify := .good,
   curMembership := some b!"leave", userID := fun _ => some b!"hs1" }
 
 example : handleSendJoin sendJoinWitness = .ok { alreadyJoined := false, sig := ⟨b!"hs1", b!"ed25519:k1"⟩ } := by rfl
@@ -227,6 +237,11 @@ example : handleSendJoin { sendJoinWitness with evType := b!"m.room.Member" } = 
 example : handleSendJoin { sendJoinWitness with evType := [] } = .error eBadJSON := by rfl
 example : sendJoinGuards sendJoinWitness = true := by rfl
 example : sendJoinGuards { sendJoinWitness with evType := b!"x.custom" } = false := by rfl
+/-- the input of the round-5 finding: the user-ID querier answers (nil, nil) — no user, no error.  The unrepaired handler
+    dereferenced the nil user ID; now it is a refusal, like a failed lookup. -/
+example : handleSendJoin { sendJoinWitness with senderDomain := .nil } = .error eForbidden := by rfl
+example : handleSendJoin { sendJoinWitness with senderDomain := .err } = .error eForbidden := by rfl
+example : sendJoinGuards { sendJoinWitness with senderDomain := .nil } = false := by rfl
 
 /-! ## HandleMakeJoin -/
 
@@ -585,11 +600,13 @@ theorem makeLeave_decision_table (i : MakeLeaveIn) :
   HandleInviteInput carries neither an event ID nor a request origin: "event ID matches the request" and
   "sender belongs to the requesting server" are stated for HandleSendJoin only; for an invite the server
   whose signature is verified is the sender's.  "Not already joined" is asked of the membership querier
-  only when the room is known to this server (in an unknown room nobody local is joined). -/
+  only when the room is known to this server (in an unknown room nobody local is joined: the decision is
+  argued at `Spec.inviteTargetJoined`) — and it is asked about the TARGET of the invite, the event's state key
+  (round 5; before, about whichever user the caller named beside the event). -/
 
-theorem inviteCommonChecks_ok {i : InviteIn} {sig : Signed} {o : InviteOut} (h : inviteCommonChecks i sig = .ok o) :
+theorem inviteCommonChecks_ok {i : InviteIn} {t : Bytes} {sig : Signed} {o : InviteOut} (h : inviteCommonChecks i t sig = .ok o) :
     o.sig = sig ∧ inviteStateLen i = .ok o.strippedLen ∧
-    ¬ (i.knownRoom matches .ans true ∧ i.curMembership = some b!"join") ∧ (∃ k, i.knownRoom = .ans k) := by
+    ¬ (roomKnown i = true ∧ i.membershipOf t = some b!"join") ∧ (∃ k, i.knownRoom = .ans k) := by
   unfold inviteCommonChecks at h
   split at h
   · cases h
@@ -605,91 +622,129 @@ theorem inviteCommonChecks_ok {i : InviteIn} {sig : Signed} {o : InviteOut} (h :
           · split at h
             · cases h
             · cases h
-              simp_all
+              simp_all [roomKnown]
       · cases h
-        simp_all
+        simp_all [roomKnown]
 
-/-- HandleInvite accepts an event only if it is an invite (an m.room.member state event with membership
-    "invite") whose room matches the request, whose sender's server has validly signed it, and whose
-    target is not already joined. -/
-theorem invite_ok_implies_guards (i : InviteIn) (o : InviteOut) (h : handleInvite i = .ok o) :
-    inviteGuards i = true ∧ i.versionKnown = true ∧ i.stateKey ≠ none := by
+theorem inviteTail_ok {i : InviteIn} {sk : Bytes} {o : InviteOut} (h : inviteTail i sk = .ok o) :
+    senderKnown i.senderDomain = true ∧ i.verify = .good ∧
+    inviteCommonChecks i sk { signer := i.invitedUserDomain, keyID := i.keyID } = .ok o := by
+  unfold inviteTail at h
+  split at h
+  · cases h
+  · cases h
+  · rename_i d hd
+    split at h
+    · cases h
+    · cases h
+    · rename_i hv
+      exact ⟨by simp [senderKnown, hd], hv, h⟩
+
+/-- what an accepting run of HandleInvite went through -/
+theorem handleInvite_ok {i : InviteIn} {o : InviteOut} (h : handleInvite i = .ok o) :
+    i.versionKnown = true ∧ i.eventRoomID = i.roomID ∧ i.eventType = b!"m.room.member" ∧ i.membership = some b!"invite" ∧
+    ∃ sk, i.stateKey = some sk ∧ (sk = i.invitedSenderID ∨ sk = i.invitedUserID) ∧ inviteTail i sk = .ok o := by
   unfold handleInvite at h
   split at h
   · cases h
+  rename_i h1
   split at h
   · cases h
+  rename_i h2
   split at h
   · cases h
-  split at h
-  · cases h
-  split at h
-  · cases h
-  · split at h
+  · rename_i sk hsk
+    split at h
     · cases h
+    rename_i h3
+    split at h
     · cases h
-    · obtain ⟨_, _, hj, _⟩ := inviteCommonChecks_ok h
-      refine ⟨?_, by simp_all, by simp_all⟩
-      unfold inviteGuards
-      cases hk : i.knownRoom with
-      | err => simp_all
-      | ans k => cases k <;> simp_all
+    rename_i h4
+    split at h
+    · cases h
+    rename_i h5
+    refine ⟨by simpa using h1, by simpa using h2, by simpa using h3, by simpa using h4, sk, hsk, ?_, h⟩
+    by_cases ha : sk = i.invitedSenderID
+    · exact Or.inl ha
+    · by_cases hb : sk = i.invitedUserID
+      · exact Or.inr hb
+      · simp [ha, hb] at h5
+
+/-- HandleInvite accepts an event only if it is an invite (an m.room.member state event with membership
+    "invite") whose room matches the request, whose sender's server has validly signed it (the querier found a user for
+    the sender), and whose target — ITS STATE KEY — is not already joined; moreover that state key is one of the two
+    names of the invited user the handler was given. -/
+theorem invite_ok_implies_guards (i : InviteIn) (o : InviteOut) (h : handleInvite i = .ok o) :
+    inviteGuards i = true ∧ i.versionKnown = true ∧
+    ∃ sk, i.stateKey = some sk ∧ (sk = i.invitedSenderID ∨ sk = i.invitedUserID) ∧
+      ¬ (roomKnown i = true ∧ i.membershipOf sk = some b!"join") := by
+  obtain ⟨hv, hr, hty, hm, sk, hsk, hor, ht⟩ := handleInvite_ok h
+  obtain ⟨hd, hvf, hc⟩ := inviteTail_ok ht
+  obtain ⟨_, _, hj, _⟩ := inviteCommonChecks_ok hc
+  refine ⟨?_, hv, sk, hsk, hor, hj⟩
+  unfold inviteGuards inviteTargetJoined
+  rw [hsk]
+  cases hk : roomKnown i
+  · simp [hr, hty, hm, hd, hvf]
+  · cases hmo : (i.membershipOf sk == some b!"join")
+    · simp [hr, hty, hm, hd, hvf, hmo]
+    · exact absurd ⟨hk, by simpa using hmo⟩ hj
 
 /-- Whatever HandleInvite returns is the received event plus one signature slot: that of the invited
     user's (= local) server under the local key ID; only `unsigned.invite_room_state` is added, and it
     holds the stripped state given or, failing that, the one generated from the state querier. -/
 theorem invite_signs_unmodified (i : InviteIn) (o : InviteOut) (h : handleInvite i = .ok o) :
     o.sig = { signer := i.invitedUserDomain, keyID := i.keyID } ∧ inviteStateLen i = .ok o.strippedLen := by
-  unfold handleInvite at h
-  split at h
-  · cases h
-  split at h
-  · cases h
-  split at h
-  · cases h
-  split at h
-  · cases h
-  split at h
-  · cases h
-  · split at h
-    · cases h
-    · cases h
-    · obtain ⟨hs, hn, _, _⟩ := inviteCommonChecks_ok h
-      exact ⟨hs, hn⟩
+  obtain ⟨_, _, _, _, sk, _, _, ht⟩ := handleInvite_ok h
+  obtain ⟨_, _, hc⟩ := inviteTail_ok ht
+  obtain ⟨hs, hn, _, _⟩ := inviteCommonChecks_ok hc
+  exact ⟨hs, hn⟩
 
-/-- the error class of each guard of HandleInvite before the common checks, in the order of the code -/
+/-- the error class of each guard of HandleInvite before the common checks, in the order of the code; the fifth row is the
+    round-5 repair (the invite is for the invited user), the sixth covers a querier that knows no user for the sender -/
 theorem invite_decision_table (i : InviteIn) :
     handleInvite i =
       match (([(!i.versionKnown, eUnsupported), (i.eventRoomID != i.roomID, eBadJSON),
                (i.eventType != b!"m.room.member" || i.stateKey.isNone, eBadJSON),
-               (i.membership != some b!"invite", eBadJSON), (i.senderDomain.isNone, eBadJSON),
+               (i.membership != some b!"invite", eBadJSON),
+               (i.stateKey != some i.invitedSenderID && i.stateKey != some i.invitedUserID, eBadJSON),
+               (!senderKnown i.senderDomain, eBadJSON),
                (i.verify == .callErr, .internal), (i.verify == .bad, eForbidden)] : List (Bool × HErr)).find? (·.1)) with
       | some (_, e) => .error e
-      | none => inviteCommonChecks i { signer := i.invitedUserDomain, keyID := i.keyID } := by
+      | none => inviteCommonChecks i (i.stateKey.getD []) { signer := i.invitedUserDomain, keyID := i.keyID } := by
   unfold handleInvite
   cases h1 : (!i.versionKnown)
   case true => simp
   cases h2 : (i.eventRoomID != i.roomID)
   case true => simp
-  cases h3 : (i.eventType != b!"m.room.member" || i.stateKey.isNone)
-  case true => simp
-  cases h4 : (i.membership != some b!"invite")
-  case true => simp
-  cases hd : i.senderDomain with
+  cases hsk : i.stateKey with
   | none => simp
-  | some d => cases hv : i.verify <;> simp
+  | some sk =>
+    cases h3 : (i.eventType != b!"m.room.member")
+    case true => simp
+    cases h4 : (i.membership != some b!"invite")
+    case true => simp
+    have e1 : (some sk != some i.invitedSenderID) = (sk != i.invitedSenderID) := by simp [bne]
+    have e2 : (some sk != some i.invitedUserID) = (sk != i.invitedUserID) := by simp [bne]
+    cases h5 : (sk != i.invitedSenderID && sk != i.invitedUserID)
+    case true => simp [e1, e2, h5]
+    unfold inviteTail
+    cases hd : i.senderDomain with
+    | err => simp [senderKnown, e1, e2, h5]
+    | nil => simp [senderKnown, e1, e2, h5]
+    | dom d => cases hv : i.verify <;> simp [senderKnown, e1, e2, h5]
 
 /-- the common checks: error classes in the order of the code -/
-theorem inviteCommonChecks_table (i : InviteIn) (sig : Signed) :
-    inviteCommonChecks i sig =
+theorem inviteCommonChecks_table (i : InviteIn) (t : Bytes) (sig : Signed) :
+    inviteCommonChecks i t sig =
       match i.knownRoom with
       | .err => .error .internal
       | .ans known =>
         match inviteStateLen i with
         | .error e => .error e
         | .ok n =>
-          firstFailing [(known && n == 0, .internal), (known && i.curMembership.isNone, .internal),
-                        (known && i.curMembership == some b!"join", eForbidden)] { sig := sig, strippedLen := n } := by
+          firstFailing [(known && n == 0, .internal), (known && (i.membershipOf t).isNone, .internal),
+                        (known && i.membershipOf t == some b!"join", eForbidden)] { sig := sig, strippedLen := n } := by
   unfold inviteCommonChecks
   cases hk : i.knownRoom with
   | err => rfl
@@ -700,20 +755,36 @@ theorem inviteCommonChecks_table (i : InviteIn) (sig : Signed) :
       cases known
       · simp [firstFailing]
       · cases h0 : (n == 0)
-        · cases hc : i.curMembership with
+        · cases hc : i.membershipOf t with
           | none => simp [firstFailing, h0]
           | some cur => cases hj : (cur == b!"join") <;> simp_all [firstFailing]
         · simp [firstFailing, h0]
 
 def inviteWitness : InviteIn := {
-  versionKnown := true, eventRoomID := b!"!room:hs2", roomID := b!"!room:hs2", senderDomain := some b!"hs2",
-  verify := .good, invitedUserDomain := b!"hs1", keyID := b!"ed25519:k1", knownRoom := .ans true, strippedGiven := 0,
-  stateQuery := .ans 2, curMembership := some b!"leave", eventType := b!"m.room.member",
+  versionKnown := true, eventRoomID := b!"!room:hs2", roomID := b!"!room:hs2", senderDomain := .dom b!"hs2",
+  verify := .good, invitedUserDomain := b!"hs1", invitedUserID := b!"@alice:hs1", invitedSenderID := b!"@alice:hs1",
+  keyID := b!"ed25519:k1", knownRoom := .ans true, strippedGiven := 0,
+  stateQuery := .ans 2, membershipOf := fun _ => some b!"leave", eventType := b!"m.room.member",
   stateKey := some b!"@alice:hs1", membership := some b!"invite" }
 
 example : handleInvite inviteWitness = .ok { sig := ⟨b!"hs1", b!"ed25519:k1"⟩, strippedLen := 2 } := by rfl
+example : inviteGuards inviteWitness = true := by rfl
 example : handleInvite { inviteWitness with membership := some b!"leave" } = .error eBadJSON := by rfl
-example : handleInvite { inviteWitness with curMembership := some b!"join" } = .error eForbidden := by rfl
+example : handleInvite { inviteWitness with membershipOf := fun _ => some b!"join" } = .error eForbidden := by rfl
+/-- the inputs of the round-5 findings.  (H6) an invite whose state key is @bob:hs1 — joined — handed over as an invite for
+    @alice:hs1, who is not: the unrepaired handler asked about alice and counter-signed; the specification was false of it all
+    along once the membership is that of the event's target.  With input.InvitedSenderID naming bob the invite reaches the
+    membership check and is refused because BOB is joined. -/
+def bobJoined : Bytes → Option Bytes := fun id => if id == b!"@bob:hs1" then some b!"join" else some b!"leave"
+example : handleInvite { inviteWitness with stateKey := some b!"@bob:hs1", membershipOf := bobJoined } = .error eBadJSON := by rfl
+example : inviteGuards { inviteWitness with stateKey := some b!"@bob:hs1", membershipOf := bobJoined } = false := by rfl
+example : handleInvite { inviteWitness with stateKey := some b!"@bob:hs1", invitedSenderID := b!"@bob:hs1", membershipOf := bobJoined }
+    = .error eForbidden := by rfl
+/-- input.InvitedSenderID left empty (as the repository's tests do): the user ID decides -/
+example : handleInvite { inviteWitness with invitedSenderID := [] } = .ok { sig := ⟨b!"hs1", b!"ed25519:k1"⟩, strippedLen := 2 } := by rfl
+/-- (H5) the user-ID querier answers (nil, nil) for the sender: a refusal, where the unrepaired handler dereferenced nil -/
+example : handleInvite { inviteWitness with senderDomain := .nil } = .error eBadJSON := by rfl
+example : inviteGuards { inviteWitness with senderDomain := .nil } = false := by rfl
 
 /-! ## HandleMakeJoin: non-vacuity -/
 
@@ -763,15 +834,47 @@ theorem checkCreate_true {kv : Bytes → Bool} {c : CreateFound} (h : checkCreat
   · cases h
   · exact ⟨_, rfl, h⟩
 
+theorem wellFormedJoin_true {r : RemoteJoin} {roomID senderID : Bytes} (h : wellFormedJoin r roomID senderID = true) :
+    r.type = b!"m.room.member" ∧ r.sender = senderID ∧ r.membership = some b!"join" ∧ r.roomID = roomID ∧
+    r.stateKey = some senderID := by
+  unfold wellFormedJoin at h
+  cases hm : r.membership with
+  | none => simp [hm] at h
+  | some m => simp [hm] at h; simp_all
+
+/-- The event PerformJoin goes on with — and returns — is the join it built and signed, or the resident server's copy of
+    it: an `m.room.member` event of the room with membership `join`, sent by the joining user with the joining user as
+    state key, which (user-ID room versions) passed `VerifyEventSignatures`: it carries a valid signature of the joining
+    user's own server.  (`Spec.joinEventOK`; before round 5 any event with the right state key, room and a `membership:
+    join` in its content was taken — an `x.custom` event, a join with content of the resident server's choosing that this
+    server never signed.) -/
+theorem joinEventUsed_ok {P} (i : PerformJoinIn P) : joinEventOK i (joinEventUsed i) := by
+  unfold joinEventUsed joinEventOK
+  cases hr : i.remote with
+  | none => exact Or.inl rfl
+  | some r =>
+    simp only
+    split
+    · rename_i ha
+      unfold adoptsRemote at ha
+      rw [Bool.and_eq_true] at ha
+      obtain ⟨hw, hs⟩ := ha
+      obtain ⟨h1, h2, h3, h4, h5⟩ := wellFormedJoin_true hw
+      refine Or.inr ⟨r, rfl, rfl, h1, h3, h4, h2, h5, ?_⟩
+      intro hp
+      simpa [signedJoin, hp] using hs
+    · exact Or.inl rfl
+
 /-- PerformJoin returns a join only if make_join and send_join succeeded for a known room version, the
     auth events of the response contain a create event of a known room version, and the response passed
-    CheckSendJoinResponse (C14) for the join event actually used (the remote's copy when it is a
-    well-formed join of the same user and room, else the one built locally); what it returns are exactly
+    CheckSendJoinResponse (C14) for the join event actually used; the event it returns is that event, and it is a join
+    of ours (`joinEventOK`: the one built and signed here, or the resident server's copy of it — an m.room.member join
+    of the joining user that this server's signature still verifies on); what it returns beside it are exactly
     the lists CheckSendJoinResponse returned. -/
 theorem performJoin_ok_implies {P} (i : PerformJoinIn P) (o : PerformJoinOut) (h : performJoin i = .ok (some o)) :
     i.makeJoinOK = true ∧ i.versionKnown = true ∧ i.buildOK = true ∧ i.sendJoinOK = true ∧
     (∃ v, i.create = .version v ∧ i.knownVersion (if v.isEmpty then b!"1" else v) = true) ∧
-    o.joinEvent = joinEventUsed i ∧
+    o.joinEvent = joinEventUsed i ∧ joinEventOK i o.joinEvent ∧
     (FedCheck.checkSendJoin i.O i.prov i.fuel (FedCheck.untrusted i.auth) (FedCheck.untrusted i.state) (joinEventUsed i) []).1
       = .ok o.auth o.state := by
   unfold performJoin at h
@@ -789,10 +892,27 @@ theorem performJoin_ok_implies {P} (i : PerformJoinIn P) (o : PerformJoinOut) (h
     split at h
     · rename_i a s lg hc
       cases h
-      refine ⟨by simpa using h1, by simpa using h2, by simpa using h3, by simpa using h4, checkCreate_true (by simpa using h5), rfl, ?_⟩
+      refine ⟨by simpa using h1, by simpa using h2, by simpa using h3, by simpa using h4, checkCreate_true (by simpa using h5), rfl,
+        joinEventUsed_ok i, ?_⟩
       rw [hc]
     · cases h
     · cases h
+
+/-- non-vacuity and the inputs of the round-5 finding (H1), on the adoption decision itself -/
+def joinLookalike (type sender : Bytes) (sigOK : Bool) : RemoteJoin :=
+  { ev := default, type := type, sender := sender, membership := some b!"join", roomID := b!"!r:hs1",
+    stateKey := some b!"@me:hs5", sigOK := sigOK }
+
+/-- our own join, echoed with our signature on it: taken -/
+example : (wellFormedJoin (joinLookalike b!"m.room.member" b!"@me:hs5" true) b!"!r:hs1" b!"@me:hs5"
+    && signedJoin false (joinLookalike b!"m.room.member" b!"@me:hs5" true)) = true := by rfl
+/-- (a) an `x.custom` event with state_key == sender == the joiner and content.membership "join": no longer well-formed -/
+example : wellFormedJoin (joinLookalike b!"x.custom" b!"@me:hs5" true) b!"!r:hs1" b!"@me:hs5" = false := by rfl
+/-- a member event for the joiner sent by somebody else -/
+example : wellFormedJoin (joinLookalike b!"m.room.member" b!"@admin:hs1" true) b!"!r:hs1" b!"@me:hs5" = false := by rfl
+/-- (b) an m.room.member join "by" the joiner that the joiner's server did not sign: well-formed, but not taken -/
+example : (wellFormedJoin (joinLookalike b!"m.room.member" b!"@me:hs5" false) b!"!r:hs1" b!"@me:hs5"
+    && signedJoin false (joinLookalike b!"m.room.member" b!"@me:hs5" false)) = false := by rfl
 
 /-! ## HandleInviteV3
 
@@ -800,14 +920,16 @@ theorem performJoin_ok_implies {P} (i : PerformJoinIn P) (o : PerformJoinOut) (h
   BUILT itself from the proto event with the invited user's sender ID as state key, signed with that user's room key
   (not with the server key).  Guards: known room version, room ID of the proto event = request, the proto event is an
   `m.room.member` event with membership `invite` (round-4 repair; before it nothing said the proto event is an invite
-  and the handler signed whatever it was given), and the common checks (target not already joined in a known room). -/
+  and the handler signed whatever it was given), and the common checks: the target — the sender ID `GetOrCreateSenderID`
+  answered with, which is the state key of the built event — is not already joined in a known room (round-5 repair; before
+  it the membership asked for was that of `input.InvitedSenderID`, which a caller that does not know the ID yet leaves ""). -/
 
 theorem inviteV3_ok_implies (i : InviteV3In) (o : InviteOut) (h : handleInviteV3 i = .ok o) :
     inviteV3Guards i = true ∧
     i.common.versionKnown = true ∧ i.protoRoomID = i.common.roomID ∧
     i.protoType = b!"m.room.member" ∧ i.protoMembership = some b!"invite" ∧ i.buildOK = true ∧
-    (∃ sid, i.invitedSenderID = some sid ∧ o.sig = { signer := sid, keyID := b!"ed25519:1" }) ∧
-    ¬ (i.common.knownRoom matches .ans true ∧ i.common.curMembership = some b!"join") := by
+    (∃ sid, i.invitedSenderID = some sid ∧ o.sig = { signer := sid, keyID := b!"ed25519:1" } ∧
+      ¬ (roomKnown i.common = true ∧ i.common.membershipOf sid = some b!"join")) := by
   unfold handleInviteV3 at h
   split at h
   · cases h
@@ -826,19 +948,14 @@ theorem inviteV3_ok_implies (i : InviteV3In) (o : InviteOut) (h : handleInviteV3
       have h2 : i.protoRoomID = i.common.roomID := by simp_all
       have h3 : i.protoType = b!"m.room.member" := by simp_all
       have h4 : i.protoMembership = some b!"invite" := by simp_all
-      refine ⟨?_, by simp_all, h2, h3, h4, by simp_all, ⟨sid, hsid, hs⟩, hj⟩
-      unfold inviteV3Guards
-      simp only [h2, h3, h4, beq_self_eq_true, Bool.true_and, Bool.not_eq_true', Bool.and_eq_false_iff]
-      cases hk : i.common.knownRoom with
-      | err => simp
-      | ans b =>
-        cases b with
-        | false => simp
-        | true =>
-          right
-          cases hc : (i.common.curMembership == some b!"join") with
-          | false => rfl
-          | true => exact absurd ⟨by simp [hk], by simpa using hc⟩ hj
+      refine ⟨?_, by simp_all, h2, h3, h4, by simp_all, ⟨sid, hsid, hs, hj⟩⟩
+      unfold inviteV3Guards inviteV3TargetJoined
+      rw [hsid]
+      cases hk : roomKnown i.common
+      · simp [h2, h3, h4]
+      · cases hmo : (i.common.membershipOf sid == some b!"join")
+        · simp [h2, h3, h4, hmo]
+        · exact absurd ⟨hk, by simpa using hmo⟩ hj
 
 theorem inviteV3_decision_table (i : InviteV3In) :
     handleInviteV3 i =
@@ -846,7 +963,7 @@ theorem inviteV3_decision_table (i : InviteV3In) :
                (i.protoType != b!"m.room.member", eBadJSON), (i.protoMembership != some b!"invite", eBadJSON),
                (i.invitedSenderID.isNone, .internal), (!i.buildOK, .internal)] : List (Bool × HErr)).find? (·.1)) with
       | some (_, e) => .error e
-      | none => inviteCommonChecks i.common { signer := i.invitedSenderID.getD [], keyID := b!"ed25519:1" } := by
+      | none => inviteCommonChecks i.common (i.invitedSenderID.getD []) { signer := i.invitedSenderID.getD [], keyID := b!"ed25519:1" } := by
   unfold handleInviteV3
   cases h1 : (!i.common.versionKnown)
   case true => simp
@@ -871,6 +988,14 @@ example : inviteV3Guards inviteV3Witness = true := by rfl
 example : handleInviteV3 { inviteV3Witness with protoType := b!"m.room.power_levels" } = .error eBadJSON := by rfl
 example : handleInviteV3 { inviteV3Witness with protoMembership := some b!"join" } = .error eBadJSON := by rfl
 example : handleInviteV3 { inviteV3Witness with protoMembership := none } = .error eBadJSON := by rfl
+/-- the input of the round-5 finding (H3): the caller leaves input.InvitedSenderID empty, GetOrCreateSenderID answers with
+    the ID of a user who is joined.  The unrepaired handler asked about "" (not joined) and built, signed and returned
+    the invite; the membership that counts is that of the ID the event is built for. -/
+def inviteeJoined : Bytes → Option Bytes := fun id => if id == b!"invitee-room-key" then some b!"join" else some b!"leave"
+example : handleInviteV3 { inviteV3Witness with common := { inviteV3Witness.common with invitedSenderID := [], membershipOf := inviteeJoined } }
+    = .error eForbidden := by rfl
+example : inviteV3Guards { inviteV3Witness with common := { inviteV3Witness.common with invitedSenderID := [], membershipOf := inviteeJoined } }
+    = false := by rfl
 
 /-! ## PerformInvite (requesting side of the invite handshake)
 
@@ -1633,6 +1758,7 @@ theorem sendJoinPseudo_ok_implies_guards (i : SendJoinPseudoIn) (o : SendJoinOut
     · cases h
     split at h
     · cases h
+    · cases h
     · split at h
       · cases h
       split at h
@@ -1658,8 +1784,8 @@ def sendJoinPseudoTable (i : SendJoinPseudoIn) : List (Bool × HErr) := [
   (i.mapping == .missing, eBadJSON),                         -- getMXIDMapping
   (i.mapping == .invalid, eForbidden),                       -- validateMXIDMappingSignatures
   (!i.storeOK, .other),                                      -- StoreSenderIDFromPublicID
-  (i.base.senderDomain.isNone, eForbidden),
-  (i.base.senderDomain != some i.base.requestOrigin, eForbidden),
+  (!senderKnown i.base.senderDomain, eForbidden),            -- the querier failed, or has no user for this key (round-5 repair)
+  (i.base.senderDomain != .dom i.base.requestOrigin, eForbidden),
   (i.base.eventRoomID != i.base.roomID, eBadJSON),
   (i.base.eventID != i.base.reqEventID, eBadJSON),
   (i.base.evType != b!"m.room.member", eBadJSON),           -- not an m.room.member event (round-4 repair)
@@ -1692,15 +1818,17 @@ theorem sendJoinPseudo_decision_table (i : SendJoinPseudoIn) :
     cases hst : i.storeOK
     case false => simp [firstFailing]
     cases hd : i.base.senderDomain with
-    | none => simp [firstFailing]
-    | some d =>
-      have hs : (some d != some i.base.requestOrigin) = (d != i.base.requestOrigin) := by simp [bne]
+    | err => simp [firstFailing, senderKnown]
+    | nil => simp [firstFailing, senderKnown]
+    | dom d =>
+      have hs : (SenderAns.dom d != SenderAns.dom i.base.requestOrigin) = (d != i.base.requestOrigin) := by simp [bne, dom_beq]
+      have hk : senderKnown (SenderAns.dom d) = true := rfl
       cases h5 : (d != i.base.requestOrigin)
-      case true => simp [firstFailing, hs, h5]
+      case true => simp [firstFailing, hs, h5, hk]
       cases h6 : (i.base.eventRoomID != i.base.roomID)
-      case true => simp [firstFailing, hs, h5]
+      case true => simp [firstFailing, hs, h5, hk]
       cases h7 : (i.base.eventID != i.base.reqEventID)
-      case true => simp [firstFailing, hs, h5]
+      case true => simp [firstFailing, hs, h5, hk]
       rw [ht]
       have e1 : (VerifyAns.bad == VerifyAns.callErr) = false := rfl
       have e2 : (VerifyAns.good == VerifyAns.callErr) = false := rfl
@@ -1708,15 +1836,173 @@ theorem sendJoinPseudo_decision_table (i : SendJoinPseudoIn) :
       cases hsv : i.selfVerify <;> cases hty : (i.base.evType != b!"m.room.member") <;>
         cases hmm : i.base.membership.isNone <;>
         cases hmj : (i.base.membership != some b!"join") <;>
-        simp [firstFailing, hs, h5, pseudoBase, pseudoVerify, hsv, hty, hmm, hmj, e1, e2, e3]
+        simp [firstFailing, hs, h5, hk, pseudoBase, pseudoVerify, hsv, hty, hmm, hmj, e1, e2, e3]
 
 def sendJoinPseudoWitness : SendJoinPseudoIn :=
-  { base := { sendJoinWitness with senderDomain := some b!"hs2" }, mapping := .valid, storeOK := true, selfVerify := true }
+  { base := { sendJoinWitness with senderDomain := .dom b!"hs2" }, mapping := .valid, storeOK := true, selfVerify := true }
 
 example : handleSendJoinPseudo sendJoinPseudoWitness = .ok { alreadyJoined := false, sig := ⟨b!"hs1", b!"ed25519:k1"⟩ } := by rfl
 example : handleSendJoinPseudo { sendJoinPseudoWitness with mapping := .invalid } = .error eForbidden := by rfl
 example : handleSendJoinPseudo { sendJoinPseudoWitness with selfVerify := false } = .error eForbidden := by rfl
 example : handleSendJoinPseudo { sendJoinPseudoWitness with base := { sendJoinWitness with evType := b!"m.room.name" } } = .error eBadJSON := by rfl
 example : sendJoinPseudoGuards { sendJoinPseudoWitness with base := { sendJoinWitness with evType := b!"m.room.name" } } = false := by rfl
+/-- the round-5 finding (H5) where it is reachable from the network: a join sent under a key the local querier has no user for -/
+example : handleSendJoinPseudo { sendJoinPseudoWitness with base := { sendJoinWitness with senderDomain := .nil } } = .error eForbidden := by rfl
+
+/-! ## PerformJoin, room version org.matrix.msc4014: what is stored, and when
+
+  `performJoinPseudo_stores_vouched` : every pair handed to `StoreSenderIDFromPublicID` — on ANY run, successful or not,
+      whatever the response contains — is vouched for: some membership event of the response carries a mapping for exactly
+      that key and that user which the user's server validly signed (`Spec.vouched`).  (Round-5 repair: before it the key
+      stored was the SENDER of the carrying event and the user the one of the mapping, whatever key the mapping was about.)
+  `performJoinPseudo_trace_shape`    : the stores all happen BEFORE CheckSendJoinResponse (which runs at most once, last);
+  `performJoinPseudo_ok_implies`     : a join is returned only if every stage succeeded, the auth events contain a create
+      event of a known room version and CheckSendJoinResponse passed. -/
+
+theorem storeLoop_vouched (storeOK : Nat → Bool) (all : List PJMember) :
+    ∀ (ms : List PJMember) (done : List (Bytes × Bytes)), (∀ m ∈ ms, m ∈ all) → (∀ p ∈ done, vouched all p.1 p.2) →
+      ∀ p ∈ (storeLoop storeOK ms done).1, vouched all p.1 p.2 := by
+  intro ms
+  induction ms with
+  | nil => intro done _ hd; simpa [storeLoop] using hd
+  | cons m rest ih =>
+    intro done hsub hd
+    have hrest : ∀ x ∈ rest, x ∈ all := fun x hx => hsub x (List.mem_cons_of_mem _ hx)
+    unfold storeLoop
+    split
+    · exact hd
+    · rename_i key user hmap
+      split
+      · exact ih done hrest hd
+      · rename_i hkey
+        have hk : key = m.sender := by simpa using hkey
+        split
+        · exact ih done hrest hd
+        · rename_i hsig
+          have hv : vouched all m.sender user :=
+            ⟨m, hsub m List.mem_cons_self, by rw [hmap, hk], by simpa using hsig⟩
+          have hd' : ∀ p ∈ done ++ [(m.sender, user)], vouched all p.1 p.2 := by
+            intro p hp
+            rcases List.mem_append.mp hp with h1 | h1
+            · exact hd p h1
+            · simp at h1; subst h1; exact hv
+          split
+          · exact ih _ hrest hd'
+          · exact hd'
+
+theorem storesVouched_map (all : List PJMember) (l : List (Bytes × Bytes)) (h : ∀ p ∈ l, vouched all p.1 p.2)
+    (tail : List PJStep) (ht : ∀ st ∈ tail, st = .check) :
+    storesVouched all (l.map (fun p => PJStep.store p.1 p.2) ++ tail) = true := by
+  unfold storesVouched
+  rw [List.all_eq_true]
+  intro st hst
+  rcases List.mem_append.mp hst with h1 | h1
+  · obtain ⟨p, hp, rfl⟩ := List.mem_map.mp h1
+    simpa using h p hp
+  · rw [ht st h1]
+
+/-- Whatever the send_join response contains and however the join ends: every (sender ID → user ID) pair PerformJoin hands to
+    the caller's store is vouched for by a validly signed mapping for that very key and user. -/
+theorem performJoinPseudo_stores_vouched (i : PerformJoinPseudoIn) :
+    storesVouched i.members (performJoinPseudo i).1 = true := by
+  have hl := storeLoop_vouched i.storeOK i.members i.members [] (fun _ h => h) (by intro p hp; cases hp)
+  unfold performJoinPseudo
+  split
+  · rfl
+  split
+  · rfl
+  split
+  · rfl
+  split
+  · rfl
+  split
+  · rfl
+  · generalize storeLoop i.storeOK i.members [] = r at hl
+    obtain ⟨stores, ok⟩ := r
+    simp only
+    split
+    · simpa using storesVouched_map i.members stores hl [] (by intro st h; cases h)
+    · split
+      · exact storesVouched_map i.members stores hl [.check] (by intro st h; simpa using h)
+      · exact storesVouched_map i.members stores hl [.check] (by intro st h; simpa using h)
+
+/-- the stores come first; CheckSendJoinResponse runs at most once, after all of them -/
+theorem performJoinPseudo_trace_shape (i : PerformJoinPseudoIn) :
+    ∃ stores : List (Bytes × Bytes), (performJoinPseudo i).1 = stores.map (fun p => PJStep.store p.1 p.2) ∨
+      (performJoinPseudo i).1 = stores.map (fun p => PJStep.store p.1 p.2) ++ [.check] := by
+  unfold performJoinPseudo
+  split
+  · exact ⟨[], Or.inl rfl⟩
+  split
+  · exact ⟨[], Or.inl rfl⟩
+  split
+  · exact ⟨[], Or.inl rfl⟩
+  split
+  · exact ⟨[], Or.inl rfl⟩
+  split
+  · exact ⟨[], Or.inl rfl⟩
+  · generalize storeLoop i.storeOK i.members [] = r
+    obtain ⟨stores, ok⟩ := r
+    simp only
+    split
+    · exact ⟨stores, Or.inl rfl⟩
+    · split
+      · exact ⟨stores, Or.inr rfl⟩
+      · exact ⟨stores, Or.inr rfl⟩
+
+/-- PerformJoin (pseudo-ID rooms) returns a join only if make_join, the sender-ID creation, the build and send_join
+    succeeded, the auth events contain a create event of a known room version, no store failed, and the response passed
+    the federation-response checks. -/
+theorem performJoinPseudo_ok_implies (i : PerformJoinPseudoIn) (h : (performJoinPseudo i).2 = .ok ()) :
+    performJoinPseudoGuards i = true ∧ (storeLoop i.storeOK i.members []).2 = true := by
+  unfold performJoinPseudo at h
+  split at h
+  · cases h
+  rename_i h1
+  split at h
+  · cases h
+  rename_i h2
+  split at h
+  · cases h
+  rename_i h3
+  split at h
+  · cases h
+  rename_i h4
+  split at h
+  · cases h
+  rename_i h5
+  generalize hr : storeLoop i.storeOK i.members [] = r at h
+  obtain ⟨stores, ok⟩ := r
+  simp only at h
+  split at h
+  · cases h
+  rename_i h6
+  split at h
+  · cases h
+  rename_i h7
+  refine ⟨?_, by simpa using h6⟩
+  unfold performJoinPseudoGuards
+  simp_all
+
+/-- the input of the round-5 finding (H4): a state event sent under ALICE's key that carries MALLORY's own, validly signed
+    mapping.  The unrepaired loop stored (alice's key → @mallory:hs3); now nothing is stored for it, the genuine
+    mappings around it still are, and the join goes through (the bad event is dropped by CheckStateResponse). -/
+def pjCreatorM : PJMember := { sender := b!"creator-key", mapping := some (b!"creator-key", b!"@creator:hs1"), mappingSigned := true }
+def pjForeignM : PJMember := { sender := b!"alice-key", mapping := some (b!"mallory-key", b!"@mallory:hs3"), mappingSigned := true }
+def pjAliceM : PJMember := { sender := b!"alice-key", mapping := some (b!"alice-key", b!"@alice:hs2"), mappingSigned := true }
+
+def pjWitness (ms : List PJMember) : PerformJoinPseudoIn :=
+  { makeJoinOK := true, senderIDOK := true, buildOK := true, sendJoinOK := true, create := .version b!"org.matrix.msc4014",
+    knownVersion := fun _ => true, members := ms, storeOK := fun _ => true, checkOK := true }
+
+example : performJoinPseudo (pjWitness [pjCreatorM, pjForeignM]) =
+    ([.store b!"creator-key" b!"@creator:hs1", .check], .ok ()) := by rfl
+example : performJoinPseudo (pjWitness [pjCreatorM, pjAliceM]) =
+    ([.store b!"creator-key" b!"@creator:hs1", .store b!"alice-key" b!"@alice:hs2", .check], .ok ()) := by rfl
+example : performJoinPseudoGuards (pjWitness [pjCreatorM, pjAliceM]) = true := by decide
+/-- a mapping nobody signed is not stored either; a membership event without mapping stops the join -/
+example : performJoinPseudo (pjWitness [{ pjAliceM with mappingSigned := false }]) = ([.check], .ok ()) := by rfl
+example : performJoinPseudo (pjWitness [pjCreatorM, { pjAliceM with mapping := none }]) =
+    ([.store b!"creator-key" b!"@creator:hs1"], .error .storeFailed) := by rfl
 
 end V.C15
